@@ -230,6 +230,20 @@ func init() {
 			})
 			rep.count("scenario:writer-restart-with-a-partly-flushed-unfinished-event", 1)
 		}
+		// directed: a flush fails AFTER its page allocation (the page writes of its transaction fail) while the buffer
+		// holds the allocated tail page and new pages; the failures stop, the flush is repeated, more events follow:
+		// everything is delivered (the writer model: only the ids assigned by the failed flush are taken back -
+		// seeded change C05n takes the tail page's id as well)
+		for i := 0; i < 12; i++ {
+			ps := []int{1024, 4096}[i%2]
+			cfg := pqengine.Config{PageSize: uint32(ps), MaxSize: []uint64{0, uint64(256 * ps)}[(i/2)%2], WriteBuffer: uint(16 * ps)}
+			ops := []pqengine.Op{{Kind: "event", N: []int{100, ps - 60, 7}[i%3], Seed: 1}, {Kind: "flush"},
+				{Kind: "event", N: []int{3 * ps, ps / 2, 2*ps + 11, 40}[(i/3)%4], Seed: 2}, {Kind: "event", N: 33, Seed: 3},
+				{Kind: "fault", N: 1000}, {Kind: "flush"}, {Kind: "nofault"}, {Kind: "flush"},
+				{Kind: "event", N: ps + 5, Seed: 4}, {Kind: "flush"}, {Kind: "reopen"}, {Kind: "event", N: 9, Seed: 5}, {Kind: "flush"}}
+			runPQHistory(rep, cfg, ops, int64(950+i), "", pqWriterK1Setup(rep, m), nil)
+			rep.count("scenario:flush-fails-after-its-page-allocation-then-retry", 1)
+		}
 		for i := 0; i < n; i++ {
 			if rep.outOfTime() {
 				break
